@@ -99,6 +99,8 @@ def gen_fuzz_cases(rng, n):
             t = rng.choice(TOKS) + rng.choice(["", " ", "\t", ",", "("]) + "".join(chr(rng.randint(32, 0x24F)) for _ in range(rng.randint(0, 6))) + rng.choice(TOKS)
         o = {"latent": rng.random() < 0.5, "depth": rng.choice([0, 1, 10]), "rml": rng.choice([1.0, 0.5, 0.25, 0.0625, 0.75]), "scorer": rng.choice(["shipped", "shipped", "const", "random"]),
              "seed": rng.randrange(1000), "debug": rng.random() < 0.15, "timeout": 0 if rng.random() < 0.8 else 0.5}
+        if o["depth"] == 0 and k >= 3 and o["timeout"] == 0:
+            o["timeout"] = 1.0          # unlimited depth on 3-4 ambiguous chunks is exponential: bound the wall time of the case
         cases.append((t, rng.choice(refs), o))
     return cases
 
